@@ -280,7 +280,7 @@ def check_program(tree, pop_name, text=None, style=None):
 
 
 # ------------------------------------------------------------------------------------------------- generator
-VARS = {'int': ['x', 'y'], 'str': ['u', 'v'], 'bool': ['p', 'q'], 'id': ['k'],
+VARS = {'int': ['x', 'y', 'z'], 'str': ['u', 'v'], 'bool': ['p', 'q'], 'id': ['k'],
         'A': ['a1', 'a2'], 'B': ['b1', 'b2'], 'L': ['l1'], 'A*': ['as1'], 'B*': ['bs1'], 'L*': ['ls1']}
 TYPE_OF = dict(integer='int', string='str', boolean='bool', unique_id='id')
 
@@ -594,7 +594,7 @@ class Gen(object):
     def st_while_(self, in_loop, depth):
         self.budget -= 1
         if self.ch.chance(self.p.get('counted', 0.8)):
-            c = self.ch.pick(self.p.get('counters', VARS['int']))
+            c = self.p['counters_by_depth'][depth] if 'counters_by_depth' in self.p else self.ch.pick(VARS['int'])
             self.declare(c, 'int')
             bound = self.ch.pick(self.p.get('bounds', [1, 2, 3]))
             body = self.block(True, depth + 1)
